@@ -136,6 +136,8 @@ class Multiline:
     """Raise the error add() would raise, without changing anything."""
     prev = self.get(tagname)
     if prev is None:
+      if datatype is not None:
+        self._check_datatype_settable(tagname, datatype)
       return
     if not isinstance(prev, gfapy.FieldArray) and \
         tagname in self.SINGLE_DEFINITION_TAGS:
